@@ -30,3 +30,51 @@ Proof.
            subst mx. cbn in Em. apply Nat.eqb_neq in Em. lia.
 Qed.
 End R.
+
+(* ---- C17: semantically transparent wrappers, nested to ANY depth ---- *)
+Section Wrap.
+Variable g : list (list nat * expr).
+Variable ignored : option nat.
+Variable t : list nat.
+Variable rx : nat -> nat -> option nat.
+Notation PEG := (peg g ignored t rx).
+
+Inductive wrapper := WSeq | WOpt | WChoiceFail (dead : expr) | WFailOr.
+Definition wrap1 (w : wrapper) (e : expr) : expr :=
+  match w with
+  | WSeq => Seq [e]
+  | WOpt => Opt e
+  | WChoiceFail dead => Choice [dead; e]
+  | WFailOr => Choice [Fail; e]
+  end.
+Definition wrapv (w : wrapper) (v : value) : value := match w with WSeq => VList [v] | _ => v end.
+Fixpoint wrap_all (ws : list wrapper) (e : expr) : expr :=
+  match ws with [] => e | w :: ws' => wrap1 w (wrap_all ws' e) end.
+Fixpoint wrapv_all (ws : list wrapper) (v : value) : value :=
+  match ws with [] => v | w :: ws' => wrapv w (wrapv_all ws' v) end.
+
+(* a dead branch: fails at every position, with any fuel *)
+Definition dead_ok (ws : list wrapper) :=
+  forall d, In (WChoiceFail d) ws -> forall n E p, PEG (S n) E d p = Fails.
+
+(* a matching inner expression under any stack of wrappers, of any length, gives the
+   correspondingly wrapped value and the same end position *)
+Theorem wrappers_transparent : forall ws n E e p v q,
+  dead_ok ws -> PEG n E e p = Match v q ->
+  PEG (length ws + n) E (wrap_all ws e) p = Match (wrapv_all ws v) q.
+Proof.
+  induction ws as [|w ws IH]; intros n E e p v q Hd H; [exact H|].
+  assert (Hd' : dead_ok ws) by (intros d Hin; apply Hd; right; exact Hin).
+  specialize (IH n E e p v q Hd' H).
+  cbn [length wrap_all wrapv_all plus].
+  set (m := length ws + n) in *.
+  assert (Hpos : exists m', m = S m').
+  { destruct m as [|m']; [cbn in IH; discriminate | eauto]. }
+  destruct Hpos as (m' & Em).
+  destruct w as [| |dead|]; cbn [wrap1 wrapv].
+  - cbn [peg seq_spec]. rewrite IH. reflexivity.
+  - cbn [peg]. rewrite IH. reflexivity.
+  - cbn [peg choice_spec]. rewrite Em at 1. rewrite (Hd dead (or_introl eq_refl) m' E p). rewrite IH. reflexivity.
+  - cbn [peg choice_spec]. rewrite Em at 1. cbn [peg]. rewrite IH. reflexivity.
+Qed.
+End Wrap.
